@@ -34,7 +34,7 @@ m = {
     },
     "engines": [{"name": "coq-model+correspondence", "path": "/verif/coq, /verif/harness, /verif/driver, /verif/tools",
                  "serves_properties": [c["property_id"] for c in checks],
-                 "kind_free_text": "Coq 8.16 theorems over an executable Gallina model; tables regenerated from /repo by gen/rs2v.py; extracted model run against stage traces of the real pipeline; oracle search on the real formatter"}],
+                 "kind_free_text": "Coq 8.16 theorems over an executable Gallina model; tables regenerated from /repo by gen/rs2v.py; extracted model run against stage traces of the real pipeline (stage by stage, and composed into one function format_model compared byte for byte from input and configuration alone); oracle search on the real formatter"}],
     "checks": checks,
     "not_applicable": na,
     "notes": "See DESIGN.md. Every check rebuilds the harness from /repo's working tree, regenerates Gen/*.v, re-proves, audits assumptions, runs the correspondence and the oracle search.",
